@@ -25,6 +25,28 @@ static std::string exname(const std::exception& e)
     return r;
 }
 
+// element types whose inserters are hostile to a stream that is REUSED between elements or calls: one
+// leaves std::hex set on the stream it was given, one writes a part of its text and then throws
+struct HexLeak
+{
+    long v;
+};
+static std::ostream& operator<<(std::ostream& s, const HexLeak& h)
+{
+    return s << std::hex << h.v;
+}
+struct Thrower
+{
+    long v;
+};
+static std::ostream& operator<<(std::ostream& s, const Thrower& t)
+{
+    s << "part";
+    if (t.v < 0)
+        throw std::runtime_error("element cannot be printed");
+    return s << t.v;
+}
+
 struct custom_exception : nitro::except::exception
 {
     using nitro::except::exception::exception;
@@ -81,6 +103,27 @@ int main()
                     v.push_back(std::atol(w[i].c_str()));
                 out("J ok " + hex(nitro::lang::join(v.begin(), v.end(), unhex(w[1]))) + " " +
                     hex(nitro::lang::join(v.begin(), v.end(), unhex(w[1]))));
+            }
+            else if (c == "JOINH" || c == "JOINT")
+            {
+                // JOINH <infix> <ints...> / JOINT <infix> <ints...>: hostile element inserters (see above)
+                std::string infix = unhex(w[1]);
+                std::string a;
+                if (c == "JOINH")
+                {
+                    std::vector<HexLeak> v;
+                    for (std::size_t i = 2; i < w.size(); ++i)
+                        v.push_back(HexLeak{ std::atol(w[i].c_str()) });
+                    a = nitro::lang::join(v.begin(), v.end(), infix);
+                }
+                else
+                {
+                    std::list<Thrower> v;
+                    for (std::size_t i = 2; i < w.size(); ++i)
+                        v.push_back(Thrower{ std::atol(w[i].c_str()) });
+                    a = nitro::lang::join(v.begin(), v.end(), infix);
+                }
+                out("J ok " + hex(a) + " " + hex(a));
             }
             else if (c == "JOINS")
             {
